@@ -23,7 +23,7 @@ NA = {
 
 CHECKS = {
     "C08": {
-        "text": "Seeded deterministic simulation of (a) rule-add histories on bare SuffixTrie objects (<= 4 rules quick / <= 6 thorough over a 3-label alphabet; normal, wildcard, exception rules, duplicates; the same multiset under 1-3 seeded schedules) with every hostname of depth <= 4 queried after every add in rotating spellings (bare, URL, schemeless, upper case, trailing dot, SplitResult, auth), and (b) life-cycle histories of the process-global state of ural.tld — two simulated origin servers publishing list versions, an operator running upgrade(transient=True) / upgrade() / restart — with injected network faults (refused, reset while reading, truncated, undecodable, stale), disk faults (open error, ENOSPC at the k-th write) and crashes (at the k-th write with a torn or partially lost durable image; before the file is opened), starting from a synthetic data file or the real bundled one. Oracle: an independent set-based implementation of the publicsuffix.org algorithm over the rule list in effect (served list after a successful upgrade; old or served list, never a mixture, after a failed one; the loaded file after a restart). A deterministic preflight sweeps the whole derived host set of the bundled list (~30k hosts + seeded random label sequences). Sampled evidence with minimised exactly-replayable counterexamples.",
+        "text": "Seeded deterministic simulation of (a) rule-add histories on bare SuffixTrie objects (<= 4 rules quick / <= 6 thorough over a 3-label alphabet; normal, wildcard, exception rules, duplicates; the same multiset under 1-3 seeded schedules) with every hostname of depth <= 4 queried after every add in rotating spellings (bare, URL, schemeless, upper case, trailing dot, SplitResult, auth), and (b) life-cycle histories of the process-global state of ural.tld — two simulated origin servers publishing list versions, an operator running upgrade(transient=True) / upgrade() / restart — with injected network faults (refused, reset while reading, incomplete read, truncated, undecodable, stale; served bodies vary CRLF / blanks / markers / punycode comment lines), disk faults (open error, ENOSPC at the k-th write) and crashes (at the k-th write with a torn or partially lost durable image; before the file is opened), starting from a synthetic data file or the real bundled one. Oracle: an independent set-based implementation of the publicsuffix.org algorithm over the rule list in effect (served list after a successful upgrade; old or served list, never a mixture or a third list, after a failed one; the old list when success is reported although the origin never delivered; the loaded file after a restart, which must import unless a disk fault or crash was injected); TLD membership is absolute in a fresh process and relational otherwise. A deterministic preflight sweeps the whole derived host set of the bundled list (~30k hosts + seeded random label sequences). Sampled evidence with minimised exactly-replayable counterexamples.",
         "note": "Trusted: the set-based PSL reference and the reference list-file parser (sim/psl.py, ~80 lines), the fakes (sim/fakes.py), CPython's importlib.reload as the model of a process restart. A host matched by no rule has no valid suffix (the property's wording). Hosts matched by two nested exception rules are not judged (the algorithm is silent). A torn data file that fails to import is 'node down', not a violation.",
         "design": "DESIGN.md §4 C08",
         "technique": "deterministic simulation with fault injection: seeded rule-add schedules + upgrade/restart life cycle on fake network and fake disk with crash points, set-based PSL reference model, ddmin-minimised replay",
